@@ -15,18 +15,30 @@ pub struct SpeedCase {
     pub tp: TrainParamSpec,
     pub links: Vec<LinkSpec>,
     pub partition: Vec<usize>,
+    /// when present, the train parameters handed to the path are not written by hand but
+    /// derived by the code itself (`TrainConfig::make_train_params`) from this car list; `tp`
+    /// then holds what the documented formulas give for it
+    #[serde(default)]
+    pub train: Option<crate::gen::train::TrainSpec>,
 }
 
 pub fn gen_speed_case(g: &mut Gen, tier: Tier) -> SpeedCase {
-    let tp = gen_train_params(g);
+    // 15 %: parameters derived from a generated car list (no parameter gates then: a gate
+    // sitting exactly on a derived value must not depend on the last bit of a sum)
+    let train = if g.bool(0.15) { Some(crate::gen::train::gen_train(g, &crate::gen::train::TrainOpts { max_cars: 120, allow_dummy: false, allow_overrides: true, min_w_per_kg: 1.0, max_w_per_kg: 2.0 })) } else { None };
+    let tp = match &train {
+        Some(t) => t.params(),
+        None => gen_train_params(g),
+    };
     let o = ChainOpts {
         geometry: false,
         max_links: if tier == Tier::Thorough { 8 } else { 6 },
+        gates: train.is_none(),
         ..Default::default()
     };
     let links = gen_chain(g, &tp, &o);
     let partition = gen_partition(g, links.len());
-    SpeedCase { tp, links, partition }
+    SpeedCase { tp, links, partition, train }
 }
 
 /// reference posted limit at route position x (half-open coverage [start, end(+len)) )
@@ -59,7 +71,11 @@ pub fn bases(case: &SpeedCase) -> Vec<f64> {
 /// Build the profile with the given partition; Err(text) if extend fails
 pub fn build_path(case: &SpeedCase, partition: &[usize]) -> Result<PathTpc, String> {
     let net = build_chain(&case.links);
-    let mut path = PathTpc::new(case.tp.build());
+    let params = match &case.train {
+        Some(t) => t.build_config().and_then(|c| c.make_train_params()).map_err(|e| format!("train params: {e:#}"))?,
+        None => case.tp.build(),
+    };
+    let mut path = PathTpc::new(params);
     let mut at = 0usize;
     for k in partition {
         path.extend(&net, link_idxs(at..at + k)).map_err(|e| format!("{e:#}"))?;
@@ -132,6 +148,27 @@ fn classify_nontrivial(case: &SpeedCase, cx: &mut Ctx) -> (bool, bool) {
 }
 
 pub fn check_speed(case: &SpeedCase, cx: &mut Ctx, id: &str, exact: bool) {
+    // parameters derived from a car list: the train *length* the oracle works with is the one
+    // the code derived (a sum over car types whose last bit depends on the order of addition
+    // would otherwise move break points by 1e-13 m); the maximum speed, which is what these
+    // two properties are about, stays the oracle's own (minimum over the types actually in
+    // the train)
+    let adjusted;
+    let case = match &case.train {
+        Some(t) => match catch(|| t.build_config().and_then(|c| c.make_train_params())) {
+            Ok(Ok(p)) => {
+                let mut c = case.clone();
+                c.tp.length = p.length.value;
+                adjusted = c;
+                &adjusted
+            }
+            _ => {
+                cx.discard("train_params_not_derivable");
+                return;
+            }
+        },
+        None => case,
+    };
     let (overlap, nested) = classify_nontrivial(case, cx);
     // degenerate class kept apart so that it cannot mask (or be masked by) the main class
     let z = if cx.labels.contains("zero_length_restriction") { ":zero-length" } else { "" };
@@ -189,6 +226,8 @@ pub fn check_speed(case: &SpeedCase, cx: &mut Ctx, id: &str, exact: bool) {
         v
     };
     cx.label_if(case.links.iter().any(|l| l.sets.iter().any(|s| s.limits.iter().any(|x| x.2 < 0.0))), "negative_restriction_speed");
+    cx.label_if(case.train.is_some(), "train_parameters_derived_from_a_car_list");
+    cx.label_if(case.train.as_ref().map(|t| t.cars.iter().any(|c| c.n == 0)).unwrap_or(false), "car_type_listed_with_zero_cars");
     let mut n_mid = 0;
     for w in bps.windows(2) {
         let m = 0.5 * (w[0] + w[1]);
